@@ -27,11 +27,17 @@ def atom_iterator(module, fn, mol_name=None):
             it = n.iter
             if isinstance(it, ast.Call) and call_name(it) == 'enumerate':
                 it = it.args[0]
+            elif isinstance(it, ast.Call) and call_attr(it) == 'items' and isinstance(it.func.value, ast.Name):
+                # a table {key: index} built from an enumeration and walked in insertion order visits the atoms in the order of that enumeration
+                d = single_def(fn, it.func.value.id)
+                if isinstance(d, ast.DictComp) and len(d.generators) == 1 and not d.generators[0].ifs and isinstance(d.generators[0].iter, ast.Call) and \
+                        call_name(d.generators[0].iter) == 'enumerate' and isinstance(d.generators[0].target, ast.Tuple) and u(d.key) == u(d.generators[0].target.elts[1]):
+                    it = d.generators[0].iter.args[0]
             txt = u(it)
             if txt.endswith('.sorted_nodes') or txt.endswith('.nodes') or txt.endswith('.nodes()') or isinstance(it, ast.Name) or txt.endswith('.atoms') \
                     or (isinstance(it, ast.Call) and call_name(it) == 'sorted'):
                 if any(isinstance(c, ast.Call) and call_attr(c) in ('format', 'write', 'append') for s in n.body for c in ast.walk(s)) and \
-                        any(isinstance(x, ast.Subscript) and u(x.slice) == u(n.target if not isinstance(n.target, ast.Tuple) else n.target.elts[-1]) and '.nodes' in u(x.value)
+                        any(isinstance(x, ast.Subscript) and u(x.slice) in ([u(n.target)] if not isinstance(n.target, ast.Tuple) else [u(e) for e in n.target.elts]) and '.nodes' in u(x.value)
                             for s in n.body for x in ast.walk(s)):
                     out.append((n, it))
     return out
